@@ -139,9 +139,11 @@ def real_tuples(doc):
     for e in doc.get("elems", []):
         n = e["n"]
         g = 1 if e.get("g", 0) > 0 else 0
-        if any(v % 1000 for v in n):
+        if any(v % 1000 for v in n) and e["k"] != "polygon":
             out.append(("inexact", e["k"], tuple(n)))
             continue
+        # (a polygon's numbers are taken to the lattice unit below: the filled box of '#' has vertices at +-2.8 units,
+        # the one non-dyadic constant of the glyph tables; Glyphs.tla records it the same way)
         u = [v // 1000 for v in n]
         br = 1 if "broken" in e["cls"] else 0
         if e["k"] == "line":
